@@ -1042,17 +1042,22 @@ def Op.isFault : Op → Bool
 
 /-- ... so a run with such errors interleaved anywhere is the run without them: every run-level theorem extends to
 alphabets with `acceptFault` -/
+theorem run_cons (s : St) (op : Op) (ops : List Op) :
+    run s (op :: ops) = match step s op with
+      | .ok (s', _) => run s' ops
+      | .error _ => run s ops := rfl
+
 theorem run_ignores_accept_faults (s : St) (ht : s.cfg.acceptTough = true) (ops : List Op) :
     run s ops = run s (ops.filter (fun op => !op.isFault)) := by
   induction ops generalizing s with
   | nil => rfl
   | cons op ops ih =>
-    cases op with
-    | acceptFault =>
-      have hf : (Op.acceptFault :: ops).filter (fun op => !op.isFault) = ops.filter (fun op => !op.isFault) := by
+    by_cases hf : op.isFault = true
+    · have hop : op = .acceptFault := by cases op <;> simp [Op.isFault] at hf ⊢
+      subst hop
+      have hfl : (Op.acceptFault :: ops).filter (fun op => !op.isFault) = ops.filter (fun op => !op.isFault) := by
         simp [Op.isFault]
-      rw [hf]
-      unfold run
+      rw [hfl, run_cons]
       cases hs : step s .acceptFault with
       | error e => exact ih s ht
       | ok r =>
@@ -1060,12 +1065,14 @@ theorem run_ignores_accept_faults (s : St) (ht : s.cfg.acceptTough = true) (ops 
         rcases (step_acceptFault hs).2 with ⟨_, rfl, _⟩ | ⟨hf', _⟩
         · exact ih _ ht
         · rw [ht] at hf'; cases hf'
-    | _ =>
-      simp only [List.filter, Op.isFault, Bool.not_false]
-      unfold run
-      split
-      · rename_i t o hs; exact ih t (by rw [step_cfg _ hs]; exact ht)
-      · exact ih s ht
+    · have hfl : (op :: ops).filter (fun op => !op.isFault) = op :: ops.filter (fun op => !op.isFault) := by
+        simp [hf]
+      rw [hfl, run_cons, run_cons]
+      cases hs : step s op with
+      | error e => exact ih s ht
+      | ok r =>
+        obtain ⟨t, o⟩ := r
+        exact ih t (by rw [step_cfg _ hs]; exact ht)
 
 /-! ### a well-behaved client making ANY requests: its ledger depends on its own history only -/
 
